@@ -777,8 +777,12 @@ class C14(Prop):
             if not r.startswith('ok ') or int(r.split()[1]) != i:
                 bad(f't={t} port {p}: submission #{i} queues its value but the model says {r}')
 
-        def progress(t, p):
-            while stage[p] and not acq[p] and stage[p][0] not in kobs[p] and mtr[p] == 0:
+        def progress(t, p, limit=10 ** 6):
+            # as LATE as possible (a later call that finds the stage empty gets the lock at once, so taking these steps
+            # early would change what later calls read): before the attribute becomes a transform again, before a
+            # later call evaluates, when the writer needs the value, at the end
+            while limit > 0 and stage[p] and not acq[p] and stage[p][0] not in kobs[p] and mtr[p] == 0:
+                limit -= 1
                 r = driver.ask(f'acquire {p}')
                 if r != f'ok {stage[p][0]} 0':
                     bad(f't={t} port {p}: submission #{stage[p][0]} gets the submit lock, no transform is set, '
@@ -809,19 +813,20 @@ class C14(Prop):
                             f'{k}, the real code evaluated transform {kobs[p].get(i, 0)} (0 = none)')
                     elif int(k) == 0:
                         do_pass(t, p)
-                        progress(t, p)
                 elif was_empty:
                     bad(f't={t} port {p}: model stage was empty but the call did not get the lock: {r}')
             elif kind == 'trset':
+                if dyn[p] and ev[3] != 0:
+                    progress(t, p)
                 if driver.ask(f'settr {p} {ev[3]}') != 'ok':
                     bad(f't={t} port {p}: settr refused by the model')
                 mtr[p] = ev[3]
-                if dyn[p]:
-                    progress(t, p)
             elif kind == 'tev':
                 i, k = ev[3], ev[4]
                 if not dyn[p]:
                     continue
+                if stage[p] and stage[p][0] != i:
+                    progress(t, p)
                 if not stage[p] or stage[p][0] != i:
                     bad(f't={t} port {p}: submission #{i} evaluates its write transform (has the submit lock) but in '
                         f'the model the head of the submit stage is {stage[p][:1]}')
@@ -837,7 +842,6 @@ class C14(Prop):
                     continue
                 if stage[p] and stage[p][0] == i and acq[p]:
                     do_pass(t, p)
-                    progress(t, p)
                 else:
                     bad(f't={t} port {p}: submission #{i} ended its transform evaluation but the model stage is '
                         f'{stage[p]} (head holds the lock: {acq[p]})')
@@ -866,6 +870,8 @@ class C14(Prop):
                             bad(f't={t} port {p}: model writer did not wait for the lock during the load-time write: {r}')
             elif kind == 'ws':
                 v, flag = ev[3], ev[4]
+                if dyn[p] and ' q=- ' in driver.ask(f'state {p}'):
+                    progress(t, p, 1)
                 if confirm[p]:
                     driver.ask(f'wconfirm {p}')
                     confirm[p] = False
@@ -916,6 +922,8 @@ class C14(Prop):
                     bad(f't={t} port {p}: a read ended but the model says {r}')
         outcomes = []
         for j in range(n):
+            if dyn[j]:
+                progress('end', j)
             r = driver.ask(f'outcomes {j}')
             assert r.startswith('ok '), r
             d = {}
